@@ -344,7 +344,17 @@ def fault(detector, token="tok", exc="ValueError", at_step=None, at_level=None, 
 def delay(detector, level=0.0, scale_ms=2.0):
     import time
 
+    detector._memory["delay_level"] = float(level)
     time.sleep(((int(abs(float(level)) * 7919) % 5) * float(scale_ms)) / 1000.0)
+
+
+def level_from_delay_model(detector):
+    """Add 1e5 x the 'level' argument of the delay model of this very pipeline run to the pixel bucket, so that a saved file identifies its run.
+
+    (The level is published by the delay model through the detector's memory.)
+    """
+    lv = detector._memory.get("delay_level", 0.0)
+    detector.pixel.array = detector.pixel.array + 1e5 * float(lv)
 
 
 def barrier(detector):
